@@ -761,6 +761,9 @@ func analyse(in Input) shape {
 			}
 			sel := map[[2]uint64]bool{}
 			for _, a := range op.Atts {
+				if a.Slot != op.DSlot {
+					sh.tags["attestation-of-other-slot"] = true
+				}
 				for _, d := range sub.Duties {
 					if d.Slot == a.Slot && d.Comm == a.Comm && in.Target > 0 && genSelected(d.Sig, d.Len, in.Target) {
 						sel[[2]uint64{a.Slot, a.Comm}] = true
@@ -964,6 +967,17 @@ func genAtt(r *Rand, in *Input, subs []Op, rootSeq *uint64) Op {
 			if r.Chance(1, 10) {
 				op.NoAcct = append(op.NoAcct, d.Val)
 			}
+		}
+	}
+	if sub != nil && r.Chance(1, 5) {
+		// attestations of another slot of the same subscription (the loop looks every attestation up by
+		// its own slot and schedules at the start of that slot, not of the duty's)
+		for _, d := range sub.Duties {
+			if d.Slot == op.DSlot || d.Slot/in.SPE != op.DSlot/in.SPE || r.Chance(1, 3) {
+				continue
+			}
+			*rootSeq++
+			op.Atts = append(op.Atts, Att{Slot: d.Slot, Comm: d.Comm, Root: *rootSeq})
 		}
 	}
 	if r.Chance(1, 8) { // a committee we hold no information about
